@@ -4,7 +4,7 @@ import json, os, re
 from vlib import Run, Infra, tla_set, cfg_text, validate_traces, log
 
 PLUGINS = ["v1", "v2"]
-INVS = ["TypeOK", "WrapMeetsC17", "UnwrapMeetsC17", "AnySurvivorUnwraps", "EveryRegionSuffices"]
+INVS = ["TypeOK", "WrapMeetsC17", "UnwrapMeetsC17", "ReunwrapMeetsC17", "AnySurvivorUnwraps", "EveryRegionSuffices"]
 ASSUME = [
     "the regional KMS endpoints are semantic fakes at the SDK client boundary (v1: the exported KMS field of each AWSKMSClient built by the real kms.NewAWS; v2: Builder.WithKMSFactory): per region and operation an up/down flag, GenerateDataKey returns 32 random bytes + a region-specific blob, Decrypt opens only blobs sealed for its own region",
     "the real AEAD (AES-256-GCM) of the SDK encrypts the system key under the data key; the same ARN is configured for a region on the wrapping and the unwrapping side",
